@@ -17,12 +17,14 @@ type keyInfo struct {
 	Fields []*types.Var
 	Heap   bool
 	OK     bool
+	Value  bool // the path stays inside a local struct value (no pointer on the way): only stores through that variable change it
 }
 
 func (k keyInfo) merge(o keyInfo) keyInfo {
 	k.Objs = append(append([]types.Object(nil), k.Objs...), o.Objs...)
 	k.Fields = append(append([]*types.Var(nil), k.Fields...), o.Fields...)
 	k.Heap = k.Heap || o.Heap
+	k.Value = false
 	return k
 }
 
@@ -46,7 +48,7 @@ func (e *Engine) objKey(obj types.Object) string { return e.P.ObjKey(obj) }
 // ObjKey is the canonical fact key of a variable.
 func (p *Program) ObjKey(obj types.Object) string {
 	if v, ok := obj.(*types.Var); ok && v.Pkg() != nil && v.Parent() == v.Pkg().Scope() {
-		return "G:" + v.Pkg().Name() + "." + v.Name()
+		return "G:" + v.Pkg().Name() + "." + objName(v)
 	}
 	pos := p.Fset.Position(obj.Pos())
 	return fmt.Sprintf("%s#%d", obj.Name(), pos.Offset)
@@ -89,9 +91,18 @@ func (e *Engine) canon(st *State, x ast.Expr) keyInfo {
 				return keyInfo{}
 			}
 			fld := sel.Obj().(*types.Var)
+			if base.Value && !sel.Indirect() {
+				// a field of a struct held by value in a local: nothing but a store through that local changes it
+				out := base
+				out.Key = base.Key + "." + fldName(fld)
+				_, isStruct := fld.Type().Underlying().(*types.Struct)
+				out.Value = isStruct
+				return out
+			}
 			out := base.merge(keyInfo{Fields: []*types.Var{fld}})
-			out.Key = base.Key + "." + fld.Name()
+			out.Key = base.Key + "." + fldName(fld)
 			out.OK = true
+			out.Value = false
 			return out
 		}
 		// package-qualified identifier
